@@ -27,7 +27,7 @@ IdxOf(seq, P(_)) ==
 Without(seq, i) == SubSeq(seq, 1, i-1) \o SubSeq(seq, i+1, Len(seq))
 
 Init ==
-  [ bad |-> "none", ver |-> 5, role |-> "server",
+  [ bad |-> "none", more |-> << >>, ver |-> 5, role |-> "server",
     est |-> FALSE,          \* handshake completed
     term |-> FALSE,         \* the connection is ending (cause seen)
     cause |-> "none",       \* first termination cause: peer | local | proto | error
@@ -58,7 +58,12 @@ Init ==
   ]
 
 Healthy(m) == m.est /\ ~m.term
-Fail(m, why) == IF m.bad = "none" THEN [m EXCEPT !.bad = why] ELSE m
+\* the first violation is m.bad; later, different ones are kept too (a change that breaks two
+\* properties is reported under both), at most four
+Fail(m, why) ==
+  IF m.bad = "none" THEN [m EXCEPT !.bad = why]
+  ELSE IF why = m.bad \/ Len(m.more) >= 4 \/ \E k \in 1..Len(m.more) : m.more[k] = why THEN m
+  ELSE [m EXCEPT !.more = Append(@, why)]
 End(m, c) == [m EXCEPT !.term = TRUE, !.cause = IF @ = "none" THEN c ELSE @]
 NeedProto(m, why) == [m EXCEPT !.needProto = TRUE, !.needWhy = IF @ = "none" THEN why ELSE @]
 
@@ -334,7 +339,13 @@ OnOutPubcomp(m, ev) ==
   ELSE IF e > 0 THEN
      \* answer to a premature / misplaced PUBREL: either completion or 0x92 is tolerated
      LET m0 == [m EXCEPT !.reqs[e].st = "answered"] IN
-     IF i > 0 /\ ev.r = 0 THEN [m0 EXCEPT !.pubs[i].comp = TRUE] ELSE m0
+     IF i > 0 /\ ev.r = 0 THEN [m0 EXCEPT !.pubs[i].comp = TRUE]
+     ELSE IF (m.ver = 3 \/ ev.r = 0)
+             /\ (\E k \in 1..Len(m.pubs) : m.pubs[k].id = ev.id /\ m.pubs[k].q = 2 /\ m.pubs[k].comp)
+             /\ ~(\E k \in 1..Len(m.pubs) : m.pubs[k].id = ev.id /\ m.pubs[k].q > 0 /\ ~m.pubs[k].comp /\ ~PubAcked(m.pubs[k]))
+       THEN \* the only exchange this identifier ever belonged to already got its PUBCOMP
+            Fail(m0, "C03:second-pubcomp-for-a-completed-qos2-publish")
+     ELSE m0
   ELSE IF ~Healthy(m) THEN m
   ELSE Fail(m, "C03:pubcomp-without-matching-pubrel")
 
